@@ -5,8 +5,17 @@ Run after any change to the generators, oracles or shapes.  usage: revalidate.py
 import json, os, subprocess, sys, time
 V = os.path.dirname(os.path.dirname(os.path.abspath(__file__)))
 VH = f"{V}/harness/target/release/vh"
-PROPS = sys.argv[1:] or ["C01", "C03", "C04", "C06", "C07", "C08", "C09", "C10", "C11", "C12", "C18", "C19", "C13"]
+# usage: revalidate.py [--gens g1,g2] [Cxx ...]   (--gens: only these universes are re-evaluated,
+# the recorded rows of the other universes are kept)
+ARGS = sys.argv[1:]
+ONLY = None
+if ARGS and ARGS[0] == "--gens":
+    ONLY = set(ARGS[1].split(","))
+    ARGS = ARGS[2:]
+PROPS = ARGS or ["C01", "C03", "C04", "C06", "C07", "C08", "C09", "C10", "C11", "C12", "C18", "C19", "C13"]
 UNIV = {"fix": None, "exh": None, "gram": 1_000_000, "imp": 200_000, "nl": 300_000, "mut": 600_000, "corp": None}
+if ONLY:
+    UNIV = {g: n for g, n in UNIV.items() if g in ONLY}
 path = f"{V}/known-indices.json"
 try:
     known = {}
@@ -30,6 +39,10 @@ if b.returncode != 0:
 for p in PROPS:
     t0 = time.time()
     rows = []
+    if ONLY:
+        if p == "C13":
+            continue
+        rows = [r for r in known.get(p, []) if r[0] not in ONLY]
     if p == "C13":
         out = f"{V}/work/validate-C13"
         subprocess.run(["rm", "-rf", out])
